@@ -14,10 +14,11 @@ func c20Cong[V univers.Version[V], VR univers.VersionRange[V]](e univers.Ecosyst
 	vv.Assume(ea == nil)
 	vb, eb := e.NewVersion(b)
 	vv.Assume(eb == nil)
-	vv.Assume(va.Compare(vb) == 0)
 	vv.Assume(!c01AlpmMixedPkgrel(e.Name(), a, b, b))
-	vv.Assert(vr.Contains(va) == vr.Contains(vb), "C20: two versions that compare equal are not both in / both out of the range")
+	vv.Assert(congOK(va.Compare(vb), vr.Contains(va), vr.Contains(vb)), "C20: two versions that compare equal are not both in / both out of the range")
 }
+
+func congOK(ab int, ina, inb bool) bool { return ab != 0 || ina == inb }
 
 func convexOK(ab, bc int, ina, inb, inc bool) bool {
 	return !(ab <= 0 && bc <= 0 && ina && inc) || inb
